@@ -308,15 +308,18 @@ def _c06():
         qs.append(Q(name, 'c06_queue.cpp', mode='coro', T=T, K=K, defs={'QUEUE_KIND': kind, 'NOPS': nops, 'PREMAX': pre, 'ITEM_COUNTER': ic, 'VERIF_T': T, 'HP_ENV_THREADS': T},
                     spin={'do_enq|do_deq|enqueue_with|dequeue_with|do_dequeue': U}, unwind=max(U, pre + T * nops + 3), unwind_fn={'linearizable': 26 if T * nops <= 4 else 122}, timeout=timeout, tiers=tiers, validate=6,
                     cxxflags=['-fno-access-control'], object_bits=12, coro_style=style, atomic_fn='hp_env_model_pass', abort_fn=HP_ABORT, mem_gb=(16 if 'quick' in tiers else 40)))
-    q('msqueue_T2_n1_K4', 0, 2, 4, 1, pre=1, U=2, timeout=3000)
-    q('moirqueue_T2_n1_K4', 1, 2, 4, 1)
-    q('basketqueue_T2_n1_K4', 2, 2, 4, 1)
-    q('optimisticqueue_T2_n1_K4', 3, 2, 4, 1)
     q('rwqueue_T2_n1_K4', 4, 2, 4, 1)
+    q('rwqueue_T2_n1_K6', 4, 2, 6, 1)
+    q('rwqueue_T2_n2_K5', 4, 2, 5, 2, pre=1, tiers=('thorough',), timeout=3000)
+    q('rwqueue_T3_n1_K5', 4, 3, 5, 1, pre=1, tiers=('thorough',), timeout=3000)
+    q('msqueue_T2_n1_K4', 0, 2, 4, 1, pre=1, U=2, tiers=('thorough',), timeout=3000)
+    q('moirqueue_T2_n1_K4', 1, 2, 4, 1, pre=1, U=2)
+    q('basketqueue_T2_n1_K4', 2, 2, 4, 1, pre=1, U=2, tiers=('thorough',), timeout=3000)
+    q('msqueue_T2_n1_K4_ic', 0, 2, 4, 1, pre=1, U=2, ic=1, tiers=('thorough',), timeout=3000)
     return qs
 CHECKS['C06'] = {
     'queries': _c06(), 'level': 'model_checking',
-    'outside': ['FCQueue (flat-combining kernel) and the intrusive variants as separate instantiations (the value containers are thin wrappers over them); DHP',
+    'outside': ['FCQueue (flat-combining kernel) and the intrusive variants as separate instantiations (the value containers are thin wrappers over them); DHP; OptimisticQueue (the harness exists, QUEUE_KIND=3, but cbmc ran out of 40 GB: not claimed)',
                 'reclamation passes are the proven specification of the real scan (hp_env.h), executed without preemption',
                 'more than 3 threads / 2 operations per thread; schedules with more than K-1 context switches; sequential consistency only (relaxed vs seq_cst traits cannot differ)'],
     'assumptions': ['context switches only immediately before atomic operations (DRF-SC)'],
@@ -349,6 +352,38 @@ CHECKS['C11'] = {
                 'sequential consistency only; schedules with more than K-1 context switches; node spin-locks: more than 2 failed acquisition attempts per lock() are cut by assume (stutter-equivalent for safety)'],
     'assumptions': ['context switches only immediately before atomic operations (DRF-SC)', 'pthread_self() is the harness thread number (heap node tags)'],
 }
+
+
+
+# ---------------------------------------------------------------- C04 / C05
+def _c04():
+    qs = []
+    def q(name, kind, T, K, nupd=1, nread=1, bufcap=2, third_reader=0, tiers=('quick', 'thorough'), timeout=900, U=3, style='goto', opt='O1'):
+        qs.append(Q(name, 'c04_rcu.cpp', srcs=['thread_data.cpp', 'urcu_gp.cpp', 'urcu_sh.cpp', 'init.cpp', 'hp.cpp', 'dhp.cpp', 'hp_thread_local.cpp'], mode='coro', T=T, K=K, opt=opt,
+                    defs={'RCU_KIND': kind, 'NUPD': nupd, 'NREAD': nread, 'BUFCAP': bufcap, 'THIRD_IS_READER': third_reader, 'VERIF_T': T, 'CDS_THREADING_CXX11': None},
+                    spin={'flip_and_wait|do_sync|do_retire|synchronize|spin_lock': U}, unwind=max(U, T + 2, nupd * T + 2, bufcap + 2) + 1, timeout=timeout, tiers=tiers, validate=6,
+                    object_bits=12, coro_style=style, atomic_fn=('clear_buffer' if kind == 1 else None)))
+    q('gpi_reader_vs_updater_T2_K4', 0, 2, 4)
+    q('gpi_reader_vs_updater_T2_K5_u2r1', 0, 2, 5, nupd=2, nread=1)
+    q('gpi_reader_vs_updater_T2_K6_u2r2', 0, 2, 6, nupd=2, nread=2, tiers=('thorough',), timeout=3000)
+    q('gpi_2readers_vs_updater_T3_K5', 0, 3, 5, third_reader=1)
+    q('gpi_reader_vs_2updaters_T3_K5', 0, 3, 5, tiers=('thorough',), timeout=3000)
+    q('gpi_reader_vs_2updaters_T3_K4', 0, 3, 4)
+    q('gpb_reader_vs_updater_T2_K4_cap1', 1, 2, 4, bufcap=1, tiers=('thorough',), timeout=3000)
+    q('gpb_reader_vs_updater_T2_K6_u2_cap1', 1, 2, 6, nupd=2, nread=1, bufcap=1, tiers=('thorough',), timeout=3000)
+    q('gpi_reader_vs_updater_T2_K8_u2r2', 0, 2, 8, nupd=2, nread=2, tiers=('thorough',), timeout=3000)
+    q('gpb_reader_vs_updater_T2_K8_u3_cap2', 1, 2, 8, nupd=3, nread=2, bufcap=2, tiers=('thorough',), timeout=3000)
+    q('gpi_2readers_vs_updater_T3_K7', 0, 3, 7, nupd=2, third_reader=1, tiers=('thorough',), timeout=3000)
+    return qs
+CHECKS['C04'] = {
+    'queries': _c04(), 'level': 'model_checking',
+    'outside': ['general_threaded (disposer thread, condition variables) and signal_buffered (signal handlers) are not encoded; raw_ptr / exempt_ptr of the RCU containers',
+                'more than 3 threads, 2 updates or reads per thread, nesting deeper than 2; schedules with more than K-1 context switches; sequential consistency only (the seq_cst fences of access_lock/flip_and_wait are context-switch points, their ordering effect beyond SC is not modelled)',
+                'liveness: a synchronize() that waits forever is cut by assume after U polling rounds',
+                'general_buffered::clear_buffer() (disposal of the buffered pointers after the grace period; recursive through push_buffer -> synchronize) runs without preemption'],
+    'assumptions': ['context switches only immediately before atomic operations and fences (DRF-SC)', 'cds::threading::Manager in its C++11 thread_local flavour (-DCDS_THREADING_CXX11); pthread_self() is the harness thread number'],
+}
+CHECKS['C05'] = dict(CHECKS['C04'])
 
 # ---------------------------------------------------------------- C01 / C03 (HP reclamation pass, sequentialised threads)
 def _c01(tag):
